@@ -98,6 +98,7 @@ type Model struct {
 	BadgeSys map[string]bool    // id -> system flag (fixed at creation)
 	Notes    map[string]*string // id -> about
 	Tickets  map[string]*string // id -> assignee
+	Memos    map[string]*string // id -> topic (a group)
 	Groups   map[string]bool
 	Links    map[pair]bool
 	Kudos    map[pair]int
@@ -105,7 +106,7 @@ type Model struct {
 
 func NewModel() *Model {
 	return &Model{Depts: map[string]string{}, People: map[string]*MPerson{}, Badges: map[string]string{}, BadgeSys: map[string]bool{},
-		Notes: map[string]*string{}, Tickets: map[string]*string{}, Groups: map[string]bool{},
+		Notes: map[string]*string{}, Tickets: map[string]*string{}, Memos: map[string]*string{}, Groups: map[string]bool{},
 		Links: map[pair]bool{}, Kudos: map[pair]int{}}
 }
 
@@ -149,6 +150,9 @@ func (m *Model) Clone() *Model {
 	}
 	for k, v := range m.Tickets {
 		r.Tickets[k] = cloneStrP(v)
+	}
+	for k, v := range m.Memos {
+		r.Memos[k] = cloneStrP(v)
 	}
 	for k := range m.Groups {
 		r.Groups[k] = true
@@ -277,6 +281,10 @@ func (m *Model) snapOf(store, id string) string {
 		}
 	case StTickets:
 		if a, ok := m.Tickets[id]; ok {
+			return simpleSnap(store, id, "", a)
+		}
+	case StMemos:
+		if a, ok := m.Memos[id]; ok {
 			return simpleSnap(store, id, "", a)
 		}
 	case StGroups:
@@ -524,16 +532,13 @@ func (m *Model) applyCreate(op Op, now int64) Outcome {
 		m.Badges[id] = owner
 		m.BadgeSys[id] = op.IsSys
 		return Outcome{OK: true, Events: []Ev{{StBadges, EvCreate, id, m.snapOf(StBadges, id), false}}}
-	case StNotes, StTickets:
-		tbl := m.Notes
-		if op.S == StTickets {
-			tbl = m.Tickets
-		}
+	case StNotes, StTickets, StMemos:
+		tbl := m.refTable(op.S)
 		if _, ok := tbl[id]; ok {
 			return reject("exists", EcAny)
 		}
 		if op.Ref != nil && *op.Ref != "" {
-			if _, ok := m.People[*op.Ref]; !ok {
+			if !m.refTargetExists(op.S, *op.Ref) {
 				return reject("ref-missing", EcNotFound)
 			}
 		}
@@ -739,11 +744,8 @@ func (m *Model) applyUpdate(op Op, now int64) Outcome {
 		}
 		m.Badges[id] = owner
 		return Outcome{OK: true, Events: []Ev{{StBadges, EvUpdate, id, m.snapOf(StBadges, id), false}}}
-	case StNotes, StTickets:
-		tbl, field := m.Notes, "about"
-		if op.S == StTickets {
-			tbl, field = m.Tickets, "assignee"
-		}
+	case StNotes, StTickets, StMemos:
+		tbl, field := m.refTable(op.S), refField(op.S)
 		cur, ok := tbl[id]
 		if !ok {
 			return reject("absent", EcNotFound)
@@ -753,7 +755,7 @@ func (m *Model) applyUpdate(op Op, now int64) Outcome {
 			ref = cloneStrP(op.Ref)
 		}
 		if strOr(ref) != strOr(cur) && strOr(ref) != "" {
-			if _, ok := m.People[*ref]; !ok {
+			if !m.refTargetExists(op.S, *ref) {
 				return reject("ref-missing", EcNotFound)
 			}
 		}
@@ -879,11 +881,8 @@ func (m *Model) applyDelete(op Op) Outcome {
 		delete(m.Badges, id)
 		delete(m.BadgeSys, id)
 		return Outcome{OK: true, Events: []Ev{ev}, Deleted: []IdRef{{StBadges, id}}}
-	case StNotes, StTickets:
-		tbl := m.Notes
-		if op.S == StTickets {
-			tbl = m.Tickets
-		}
+	case StNotes, StTickets, StMemos:
+		tbl := m.refTable(op.S)
 		if _, ok := tbl[id]; !ok {
 			return reject("absent", EcNotFound)
 		}
@@ -893,6 +892,19 @@ func (m *Model) applyDelete(op Op) Outcome {
 	case StGroups:
 		if !m.Groups[id] {
 			return reject("absent", EcNotFound)
+		}
+		out := Outcome{OK: true}
+		var mids []string
+		for mid, t := range m.Memos {
+			if t != nil && *t == id {
+				mids = append(mids, mid)
+			}
+		}
+		sort.Strings(mids)
+		for _, mid := range mids {
+			out.Events = append(out.Events, Ev{StMemos, EvDelete, mid, m.snapOf(StMemos, mid), false})
+			out.Deleted = append(out.Deleted, IdRef{StMemos, mid})
+			delete(m.Memos, mid)
 		}
 		ev := Ev{StGroups, EvDelete, id, m.snapOf(StGroups, id), false}
 		for k := range m.Links {
@@ -906,7 +918,12 @@ func (m *Model) applyDelete(op Op) Outcome {
 			}
 		}
 		delete(m.Groups, id)
-		return Outcome{OK: true, Events: []Ev{ev}, Deleted: []IdRef{{StGroups, id}}}
+		out.Events = append(out.Events, ev)
+		out.Deleted = append(out.Deleted, IdRef{StGroups, id})
+		if len(mids) >= 2 {
+			out.Deleted = append(out.Deleted, IdRef{"probe:cascade", id})
+		}
+		return out
 	}
 	panic("model: delete on unknown store " + op.S)
 }
@@ -923,6 +940,12 @@ func (m *Model) applyDeleteWhere(op Op) Outcome {
 		}
 	case StTickets:
 		for id, a := range m.Tickets {
+			if a != nil && *a == op.Q {
+				ids = append(ids, id)
+			}
+		}
+	case StMemos:
+		for id, a := range m.Memos {
 			if a != nil && *a == op.Q {
 				ids = append(ids, id)
 			}
@@ -1108,4 +1131,28 @@ func eqStrs(a, b []string) bool {
 		}
 	}
 	return true
+}
+
+func (m *Model) refTable(store string) map[string]*string {
+	switch store {
+	case StNotes:
+		return m.Notes
+	case StTickets:
+		return m.Tickets
+	case StMemos:
+		return m.Memos
+	}
+	panic("refTable " + store)
+}
+
+func refField(store string) string {
+	return map[string]string{StNotes: "about", StTickets: "assignee", StMemos: "topic"}[store]
+}
+
+func (m *Model) refTargetExists(store, id string) bool {
+	if store == StMemos {
+		return m.Groups[id]
+	}
+	_, ok := m.People[id]
+	return ok
 }
